@@ -321,6 +321,8 @@ pub struct Outcome {
     pub chars_scanned: u64,
     pub panic: Option<String>,
     pub clock_exceeded: bool,
+    /// filled by checks that need it: start offsets of the significant tokens
+    pub sig_starts: Vec<u32>,
 }
 
 thread_local! {
@@ -441,6 +443,7 @@ pub fn parse(b: &Built, input: &str, o: &Opts) -> Outcome {
         chars_scanned: chars,
         panic,
         clock_exceeded,
+        sig_starts: vec![],
     }
 }
 
